@@ -131,6 +131,9 @@ def build(mesh):
         arr = np.array(val, dtype=float)
         fd.nodal_data.update({nm: FEMAttribute(nm, np.array(mesh['nodes']['ids'], dtype=int), arr,
                                                 time_series=(arr.ndim == 3))})
+    for nm, spec in mesh.get('nodal_partial', {}).items():
+        fd.nodal_data.update({nm: FEMAttribute(nm, np.array(spec['ids'], dtype=int),
+                                                np.array(spec['values'], dtype=float))})
     for nm, val in mesh.get('elemental', {}).items():
         fd.elemental_data.update_data(np.array(fd.elements.ids).copy(), {nm: np.array(val, dtype=float)})
     return fd
@@ -179,6 +182,8 @@ def resolve(fd, v):
             return np.array(fd.nodal_data.get_attribute_data(nm)).copy()
         if k == '$elemental':
             return np.array(fd.elemental_data.get_attribute_data(nm)).copy()
+        if k == '$block':
+            return fd.elements[nm]          # one type block of the mesh's own elements
     return v
 
 
@@ -273,7 +278,7 @@ def run_history(hist, workdir, hid):
         try:
             if k == 'new':
                 live[op['o']] = build(op['mesh'])
-                users[op['o']] = {'nodal': list(op['mesh'].get('nodal', {})),
+                users[op['o']] = {'nodal': list(op['mesh'].get('nodal', {})) + list(op['mesh'].get('nodal_partial', {})),
                                   'elemental': list(op['mesh'].get('elemental', {}))}
             elif k == 'query':
                 fd = live.get(op['o'])
